@@ -80,8 +80,9 @@ type actObs struct {
 
 type actClient struct {
 	*kube.Client
-	srv   *nsim.Server
-	calls *[]actCall
+	srv    *nsim.Server
+	calls  *[]actCall
+	panics *[]string
 }
 
 func (c *actClient) IsReachable() error { return nil }
@@ -133,7 +134,9 @@ func resOfObject(o map[string]interface{}, ns, kind, ver, name string) objRes {
 	return r
 }
 
-func (c *actClient) record(st objStep, run func() (bool, string, []string)) {
+// record runs one client call; a panic inside the real client is recorded (the oracle reports it) and handed
+// to the action as an error: the action may run the call in its own goroutine, where nobody could recover it.
+func (c *actClient) record(st objStep, run func() (bool, string, []string)) (panicked error) {
 	call := actCall{Step: st, Before: c.srv.SnapshotRaw()}
 	c.srv.TakeMuts()
 	func() {
@@ -148,8 +151,10 @@ func (c *actClient) record(st objStep, run func() (bool, string, []string)) {
 	call.Obs.Objs = c.srv.SnapshotRaw()
 	*c.calls = append(*c.calls, call)
 	if call.Obs.Panic != "" {
-		panic(call.Obs.Panic)
+		*c.panics = append(*c.panics, call.Obs.Panic)
+		return fmt.Errorf("panic in kube.Client.%s: %s", st.Verb, call.Obs.Panic)
 	}
+	return nil
 }
 
 func errText(err error) string {
@@ -160,15 +165,17 @@ func errText(err error) string {
 }
 
 func (c *actClient) Create(rs kube.ResourceList) (res *kube.Result, err error) {
-	c.record(objStep{Verb: "create", Tgt: infoRes(rs)}, func() (bool, string, []string) {
+	if p := c.record(objStep{Verb: "create", Tgt: infoRes(rs)}, func() (bool, string, []string) {
 		res, err = c.Client.Create(rs)
 		return err == nil, errText(err), nil
-	})
+	}); p != nil {
+		return &kube.Result{}, p
+	}
 	return
 }
 
 func (c *actClient) update(o, t kube.ResourceList, force, tw bool) (res *kube.Result, err error) {
-	c.record(objStep{Verb: "update", Force: force, ThreeWay: tw, Orig: infoRes(o), Tgt: infoRes(t)}, func() (bool, string, []string) {
+	if p := c.record(objStep{Verb: "update", Force: force, ThreeWay: tw, Orig: infoRes(o), Tgt: infoRes(t)}, func() (bool, string, []string) {
 		if tw {
 			res, err = c.Client.UpdateThreeWayMerge(o, t, force)
 		} else {
@@ -179,7 +186,9 @@ func (c *actClient) update(o, t kube.ResourceList, force, tw bool) (res *kube.Re
 			created = infoKeys(res.Created)
 		}
 		return err == nil, errText(err), created
-	})
+	}); p != nil {
+		return &kube.Result{}, p
+	}
 	return
 }
 
@@ -191,18 +200,22 @@ func (c *actClient) UpdateThreeWayMerge(o, t kube.ResourceList, force bool) (*ku
 }
 
 func (c *actClient) Delete(rs kube.ResourceList) (res *kube.Result, errs []error) {
-	c.record(objStep{Verb: "delete", Tgt: infoRes(rs)}, func() (bool, string, []string) {
+	if p := c.record(objStep{Verb: "delete", Tgt: infoRes(rs)}, func() (bool, string, []string) {
 		res, errs = c.Client.Delete(rs)
 		return len(errs) == 0, fmt.Sprint(errs), nil
-	})
+	}); p != nil {
+		return nil, []error{p}
+	}
 	return
 }
 
 func (c *actClient) DeleteWithPropagationPolicy(rs kube.ResourceList, pol metav1.DeletionPropagation) (res *kube.Result, errs []error) {
-	c.record(objStep{Verb: "delete", Tgt: infoRes(rs)}, func() (bool, string, []string) {
+	if p := c.record(objStep{Verb: "delete", Tgt: infoRes(rs)}, func() (bool, string, []string) {
 		res, errs = c.Client.DeleteWithPropagationPolicy(rs, pol)
 		return len(errs) == 0, fmt.Sprint(errs), nil
-	})
+	}); p != nil {
+		return nil, []error{p}
+	}
 	return
 }
 
@@ -275,7 +288,8 @@ func actExecute(c *actCase) (o actObs) {
 			so.Outcome = "ok"
 		} else {
 			var calls []actCall
-			kc := &actClient{Client: srv.Client(), srv: srv, calls: &calls}
+			var panics []string
+			kc := &actClient{Client: srv.Client(), srv: srv, calls: &calls, panics: &panics}
 			cfg := &action.Configuration{KubeClient: kc, Releases: storage.Init(mem), Capabilities: chartutil.DefaultCapabilities.Copy()}
 			var err error
 			func() {
@@ -314,6 +328,9 @@ func actExecute(c *actCase) (o actObs) {
 				so.Outcome, so.ErrText = "err", err.Error()
 			}
 			so.Calls = calls
+			if len(panics) > 0 && so.Panic == "" {
+				so.Panic = strings.Join(panics, "; ")
+			}
 		}
 		so.Objs = srv.SnapshotRaw()
 		so.Ledger = actLedger(mem)
